@@ -531,6 +531,21 @@ func c05Tag(up bool) string {
 
 func c05Sig(kind string) string { return "C05:" + kind }
 
+// c05SourceStream is the ground truth of one direction's source: the bytes the scripted source delivers up to
+// and including its first read with an end/error indication (the bytes that come with the indication
+// included), and the number of Read calls that takes (len(reads)+1 when no scripted read carries an
+// indication: the connection then answers EOF to the call after the last scripted one).
+func c05SourceStream(reads []c05Read) ([]byte, int) {
+	var truth []byte
+	for i, r := range reads {
+		truth = append(truth, r.data...)
+		if r.err != "-" || r.block {
+			return truth, i + 1
+		}
+	}
+	return truth, len(reads) + 1
+}
+
 // runC05 executes one script; returns the implementation's canonical answer.
 func runC05(out *vlib.Out, s *c05Script) string {
 	w := &c05World{dls: s.dls}
@@ -649,6 +664,22 @@ func runC05(out *vlib.Out, s *c05Script) string {
 			kind = "data-with-error-dropped"
 		}
 		fail(kind, fmt.Sprintf("no write fault and no deadline failure, %d read(s) returned %d bytes, destination received %d", nread, len(performed), len(got)))
+	}
+	// The same clause judged from the SCRIPT, not from the calls the direction chose to make
+	// (`delivered_complete_until_fault` speaks of `consumed s.reads`): the source's stream ends where the
+	// script says it does — at the first read that carries an end/error indication, or, when no scripted
+	// read carries one, at the EOF the connection answers once the script is exhausted.  A read that returns
+	// neither bytes nor an indication, a short read, a read of any particular size or content is NOT an end.
+	// Unless a connection of the harness actually answered a call with a fault (write error / short write,
+	// failing SetDeadline), every byte up to that point must have been accepted by the destination, and the
+	// direction must have gone on reading until the source reported its end.
+	if conform && !dst.writeFault && !dlFault {
+		truth, needReads := c05SourceStream(s.reads)
+		if !bytes.Equal(got, truth) && bytes.Equal(got, performed) {
+			// (got != performed is the failure reported above)
+			fail("ended-before-source-end", fmt.Sprintf("no write fault and no deadline failure, but the direction stopped after %d Read call(s) that returned %d bytes; the source's stream ends (first end/error indication) at Read call %d after %d bytes: %d bytes the source had still to deliver were never relayed",
+				nread, len(performed), needReads, len(truth), len(truth)-len(got)))
+		}
 	}
 	// no loss up to the point of failure (`no_loss_until_failure`): a failing write is the write of the
 	// last performed read's bytes, so everything the earlier reads returned must have arrived, followed by
@@ -1451,6 +1482,15 @@ func c05ProxyScenarios(r *vlib.Rand, n int) []*c05Proxy {
 		// full duplex: 12 x 32 KiB of one pattern flow down while 12 / 14 chunks of another flow up
 		{name: "duplex-12x32k", upChunks: chunks(32*1024, 7, 32*1024, 4096, 32*1024-1, 1, 20000, 32*1024, 512, 32*1024, 9999, 32*1024), upLast: "block", reply: 12 * 32 * 1024, failAt: -1, duplex: true},
 		{name: "duplex-proxy-header-small-chunks", upChunks: chunks(100, 200, 300, 400, 500, 600, 700, 800, 900, 1000, 1100, 1200, 1300, 1400), upLast: "block", reply: 11*32*1024 + 17, header: 1, failAt: -1, duplex: true},
+		// a client connection (a framing transport) whose Read now and then returns (0, nil) — a frame without
+		// payload: legal for an io.Reader, "nothing happened", NOT the end of the stream.  Everything the client
+		// sends afterwards must still reach the covert, and the reply must still come back.
+		{name: "client-empty-read-mid-stream", upChunks: chunks(6, 0, 5), upLast: "block", reply: 11, failAt: -1},
+		{name: "client-empty-read-first", upChunks: chunks(0, 16, 21), upLast: "block", reply: 300, failAt: -1},
+		{name: "client-empty-reads-then-data-with-eof", upChunks: chunks(0, 0, 7, 0, 9), upLast: "eof", failAt: -1},
+		{name: "client-empty-read-proxy-header-data-with-rst", upChunks: chunks(9, 0, 0, 9), upLast: "rst", header: 1, failAt: -1},
+		{name: "client-empty-read-with-eof-last", upChunks: chunks(12, 0), upLast: "eof", failAt: -1},
+		{name: "duplex-empty-reads-between-chunks", upChunks: chunks(32*1024, 0, 7, 0, 0, 32*1024, 4096, 0, 20000), upLast: "block", reply: 6 * 32 * 1024, failAt: -1, duplex: true},
 	}
 	lasts := []string{"block", "block", "eof", "rst", "timeout", "closed", c05Other(0)}
 	for i := 0; i < n; i++ {
@@ -1460,6 +1500,9 @@ func c05ProxyScenarios(r *vlib.Rand, n int) []*c05Proxy {
 			sz := r.Range(1, 300)
 			if r.Chance(1, 6) {
 				sz = r.Range(1000, 32*1024)
+			}
+			if r.Chance(1, 7) {
+				sz = 0 // a Read that returns (0, nil)
 			}
 			p.upChunks = append(p.upChunks, c05Pattern(sz, i*100+j))
 		}
@@ -1485,9 +1528,11 @@ func c05ProxyScenarios(r *vlib.Rand, n int) []*c05Proxy {
 			for _, c := range p.upChunks {
 				tot += len(c)
 			}
-			p.reset = r.Range(1, tot)
-			p.upLast = "block"
-			p.failAt = -1
+			if tot > 0 {
+				p.reset = r.Range(1, tot)
+				p.upLast = "block"
+				p.failAt = -1
+			}
 		}
 		ps = append(ps, p)
 	}
@@ -1530,6 +1575,12 @@ func TestVerifC05(t *testing.T) {
 	for _, p := range c05ProxyScenarios(vlib.NewRand("C05proxy"), vlib.Budget(40, 600)) {
 		line, ans := runC05Proxy(out, p)
 		out.Count("proxy-scenario")
+		for i, c := range p.upChunks {
+			if len(c) == 0 && (i < len(p.upChunks)-1 || p.upLast == "block") {
+				out.Count("proxy:client-read-returns-0-nil")
+				break
+			}
+		}
 		if line != "" {
 			out.Case(line, ans, true)
 		}
@@ -1538,6 +1589,8 @@ func TestVerifC05(t *testing.T) {
 	// boundaries in between (zz_verif_c05_stats_test.go)
 	c05StatsCalls(out)
 	c05StatsSessions(out)
+	// the PROXY-protocol line in front of the upload (zz_verif_c05_header_test.go)
+	c05Header(out)
 }
 
 // TestVerifC05Race runs the Proxy scenarios (fixed ones and a few random ones) under the race detector:
@@ -1598,7 +1651,9 @@ func c05Replay(t *testing.T, out *vlib.Out, path string) {
 				}
 			}
 		default:
-			c05StatsReplay(out, line)
+			if !c05HeaderReplay(out, line) {
+				c05StatsReplay(out, line)
+			}
 		}
 	}
 }
